@@ -34,6 +34,7 @@ type RunConfig struct {
 	MaxViolations   int
 	CrossCheck      []smt.OneShot // thorough: re-discharge assertion queries
 	CrossTimeout    time.Duration
+	LabelFilter     func(label string) bool // nil: every assertion counts; else assertions whose label is rejected are skipped
 	CrossMax        int64 // at most this many assertion queries are cross-checked per instance (0: 300)
 	crossUsed       *int64
 	Trace           bool
@@ -212,6 +213,7 @@ func (in *Interp) runPath(h *Harness, cfg *RunConfig, item *WorkItem, res *pathR
 			p.oneShotTimeout = 120 * time.Second
 		}
 	}
+	p.labelFilter = cfg.LabelFilter
 	if len(cfg.CrossCheck) > 0 {
 		p.queryHook = func(label string, pc []T, neg T, r smt.Result) {
 			if cfg.crossUsed != nil && atomic.AddInt64(cfg.crossUsed, 1) > cfg.CrossMax {
@@ -546,7 +548,7 @@ func (p *Pool) RunConcrete(prog *Program, cfg RunConfig, input Model) (labels []
 		maxSteps: 400000000, maxDecs: 100000, maxConc: 64,
 		covers: map[string]Model{}, asserts: map[string]int{}, varCtr: map[string]int{}, ghost: map[string]value{},
 		known: cfg.Known, knownSeen: map[string]bool{}, cuts: map[string]int{}, pcVars: map[*term.Term]bool{}, stubCalls: map[string]int{},
-		concrete: true, input: input, harness: h,
+		concrete: true, input: input, harness: h, labelFilter: cfg.LabelFilter,
 	}
 	ps.model = term.Env{}
 	ps.modelOK = true
